@@ -37,7 +37,10 @@ Bad(e) ==
                ELSE {"the compiler crashed (exit status " \o ToString(e.rc) \o ")"})
          ELSE IF e.rc = 0 THEN (IF E = {} THEN {} ELSE {"an ill-formed program was accepted"})
          ELSE IF E = {} THEN {"a well-formed program was rejected (" \o e.cls \o ")"}
-         ELSE IF <<e.cls, <<e.key[1], e.key[2], e.key[3]>>>> \in E THEN {} ELSE {"the reported error (" \o e.cls \o ") is not a defect of the program at that line"}
+         ELSE IF \/ <<e.cls, <<e.key[1], e.key[2], e.key[3]>>>> \in E
+                 \* a defect of `term = pattern` of a match case may be reported at the line of the term
+                 \/ (e.key[2] = 0 /\ \E x \in E : x[1] = e.cls /\ x[2][1] = e.key[1] /\ x[2][3] = 0)
+              THEN {} ELSE {"the reported error (" \o e.cls \o ") is not a defect of the program at that line"}
     [] e.ev = "mutant" ->
          IF e.rc \notin {0, 1} THEN {"the compiler crashed (exit status " \o ToString(e.rc) \o ")"}
          ELSE IF e.rc = 0 THEN {"a program with a planted " \o e.planted \o " defect was accepted"}
